@@ -719,12 +719,32 @@ func (p *parser) unary() (ast.Node, error) {
 	tok := p.peek()
 	if len(ops) > 0 && ops[len(ops)-1] && tok.isInt() {
 		p.advance()
-		i, err := strconv.ParseInt("-"+tok.Text, 10, 64)
-		if err != nil {
-			return ast.Node{}, err
+		if next := p.peek().Text; next == "." || next == "[" {
+			// the integer is the receiver of a member access, which binds tighter than the
+			// unary minus: `-1.foo` is `-(1.foo)`, not a negative literal
+			i, err := tok.intValue()
+			if err != nil {
+				return ast.Node{}, err
+			}
+			res = ast.Long(i)
+			for {
+				var ok bool
+				res, ok, err = p.access(res)
+				if err != nil {
+					return ast.Node{}, err
+				}
+				if !ok {
+					break
+				}
+			}
+		} else {
+			i, err := strconv.ParseInt("-"+tok.Text, 10, 64)
+			if err != nil {
+				return ast.Node{}, err
+			}
+			res = ast.Long(i)
+			ops = ops[:len(ops)-1]
 		}
-		res = ast.Long(i)
-		ops = ops[:len(ops)-1]
 	} else {
 		var err error
 		res, err = p.member()
